@@ -10,6 +10,7 @@ CONSTANTS
   PurgeAt <- PurgeAllButLast
   DropReopenedWindow = TRUE
   SnapshotConsumedOnLoad = TRUE
+  ClearRevertedColumn = TRUE
 INIT WInit
 NEXT WNext
 VIEW wview
